@@ -46,4 +46,227 @@ theorem C14_mode_total (flags : Nat) : fileFlagsToMode cfg flags = some (Spec.mo
   · exact (hg.table _).2.2
   · exact hg.three _
 
+/-- **other bits are irrelevant**: two flag words with the same access mode and the same
+    O_APPEND bit get the same mode string, whatever else differs (O_CREAT, O_TRUNC,
+    O_CLOEXEC, O_DIRECT, O_LARGEFILE, …). -/
+theorem C14_mode_other_bits (f g : Nat) (hacc : f % 4 = g % 4) (happ : f / 1024 % 2 = g / 1024 % 2) :
+    fileFlagsToMode cfg f = fileFlagsToMode cfg g := by
+  have hg := cfg_good_mode.toGoodMode
+  rw [fileFlagsToMode_factor cfg hg, fileFlagsToMode_factor cfg hg, hacc]
+  unfold appendSet
+  rw [happ]
+
+/-- Linux's access mode 3 is reported like O_RDWR -/
+theorem C14_mode3_like_rdwr (f : Nat) (h : f % 4 = 3) :
+    fileFlagsToMode cfg f = fileFlagsToMode cfg (f - 1) := by
+  rw [C14_mode_total, C14_mode_total]
+  have h2 : (f - 1) % 4 = 2 := by omega
+  have h3 : (f - 1) / 1024 = f / 1024 := by omega
+  unfold Spec.mode appendSet
+  rw [h, h2, h3]
+  rfl
+
+/-- the mode string is always one of the five documented ones -/
+theorem C14_mode_range (flags : Nat) :
+    ∃ m, fileFlagsToMode cfg flags = some m ∧ m ∈ [mR, mW, mA, mRp, mAp] := by
+  refine ⟨Spec.mode flags, C14_mode_total flags, ?_⟩
+  unfold Spec.mode
+  split <;> (try split) <;> simp
+
+/-- the model configured as the code was before the `fix:` commits (three-entry `modes_map`,
+    `int(value)` outside the try) -/
+def cfgUpstream : Cfg :=
+  { cfg with modesMap := [(0, [114]), (1, [119]), (2, [119, 43])], ioIntGuarded := false }
+
+/-- full statement of totality for an arbitrary configuration -/
+def ModeTotal (c : Cfg) : Prop := ∀ flags, (fileFlagsToMode c flags).isSome = true
+
+theorem C14_mode_total_holds : ModeTotal cfg := fun flags => by rw [C14_mode_total]; rfl
+
+/-- lead L13 re-found: with the three-entry table, flag word 0o100003 has no mode (KeyError) -/
+theorem C14_mode_total_fails_upstream : ¬ ModeTotal cfgUpstream := by
+  intro h
+  have := h 0o100003
+  revert this
+  decide
+
+/-! ## open_files -/
+
+theorem cfg_good_scan : cfg.GoodScan := by
+  constructor <;> decide
+
+/-- **open_files is exact**, for every process state: over the kernel's rendering of ANY
+    descriptor table (any number of descriptors of the six kinds, any offsets and flag words,
+    any fdinfo tail, any subset closing at either stage with either errno, the process
+    possibly gone before the call or dying at any point of the scan) the call returns exactly
+    the still-open descriptors that point to a regular file by absolute path — number,
+    offset (decimal), flags (octal) and implied mode — or NoSuchProcess when the process
+    vanished. -/
+theorem C14_open_files_exact (w : World) (hwf : ∀ d ∈ w.fds, WFFd w.fs d) :
+    openFiles cfg w.fs (renderWorld w) = expectedOpenFiles w := by
+  have hg := cfg_good_scan
+  unfold openFiles openFilesBody renderWorld expectedOpenFiles World.vanished
+  cases hgb : w.goneBefore with
+  | true => simp [goneExc, wrap, wrapExc]
+  | false =>
+    simp only [Bool.false_eq_true, if_false, Bool.false_or]
+    cases hda : w.diesAt with
+    | none =>
+      simp only [World.seen, hda]
+      rw [scan_render cfg hg C14_mode_total w.fs w.fds hwf]
+      simp [wrap]
+    | some k =>
+      simp only [World.seen, hda]
+      rw [scan_render cfg hg C14_mode_total w.fs _ (killFrom_wf w.fs k w.fds hwf)]
+      by_cases hk : k < w.fds.length
+      · simp [hk, killFrom_hits w.fs k w.fds hk, hg.finalAliveCheck, wrap, wrapExc]
+      · rw [killFrom_ge k w.fds (by omega)]
+        simp [hk, wrap]
+
+/-- a process that stays alive during the call -/
+def Live (w : World) : Prop := w.goneBefore = false ∧ w.diesAt = none
+
+/-- **closing descriptors never fail the call for a live process**: whatever subset of the
+    descriptors closes, at whichever stage, with ENOENT or ESRCH, the call succeeds, and what
+    it reports is exactly what it would report if the closing descriptors had never been
+    listed. -/
+theorem C14_closing_fd_never_fails (w : World) (hl : Live w) (hwf : ∀ d ∈ w.fds, WFFd w.fs d) :
+    openFiles cfg w.fs (renderWorld w)
+      = .ok ((w.fds.filter fun d => d.closesAt.isNone).filterMap (listed w.fs)) := by
+  rw [C14_open_files_exact w hwf, ← listed_filter_open]
+  simp [expectedOpenFiles, World.vanished, hl.1, hl.2]
+
+/-- the listed descriptors are exactly the regular ones: sockets, pipes, anonymous inodes,
+    devices and relative targets are never reported -/
+theorem C14_only_regular_listed (fs : FS) (d : Fd) (f : POpenFile) (h : listed fs d = some f) :
+    ∃ path del, d.kind = .regular path del ∧ d.closesAt = none ∧ fs.isFile path = true ∧
+      f = ⟨path, d.n, d.pos, Spec.mode d.flags, d.flags⟩ := by
+  unfold listed at h
+  cases hk : d.kind <;> cases hc : d.closesAt <;> simp [hk, hc] at h
+  rename_i path del
+  exact ⟨path, del, rfl, rfl, h.1, h.2.symm⟩
+
+/-- **a vanished process gives NoSuchProcess** (never a partial list, never a raw OSError) -/
+theorem C14_gone_process_NSP (w : World) (hwf : ∀ d ∈ w.fds, WFFd w.fs d) (h : w.vanished = true) :
+    openFiles cfg w.fs (renderWorld w) = .exc .noSuchProcess := by
+  rw [C14_open_files_exact w hwf]
+  simp [expectedOpenFiles, h]
+
+/-- **num_fds counts every descriptor**, of whatever kind, closing or not -/
+theorem C14_num_fds (w : World) : numFds (renderWorld w) = expectedNumFds w := by
+  unfold numFds renderWorld expectedNumFds
+  cases hgb : w.goneBefore with
+  | true => simp [goneExc, wrap, wrapExc, World.vanished, hgb]
+  | false =>
+    simp only [Bool.false_eq_true, if_false, wrap, List.length_map]
+    cases hda : w.diesAt with
+    | none => simp [World.seen, hda]
+    | some k => simp [World.seen, hda, killFrom_length]
+
+/-- the fdinfo record round-trips for every offset and flag word: `pos:` is read as decimal
+    and `flags:` as OCTAL (the kernel prints `0%o`), whatever follows in the file -/
+theorem C14_fdinfo_roundtrip (d : Fd) : parseFdinfo cfg (fdinfoText d) = .ok (d.pos, d.flags) :=
+  parseFdinfo_render cfg cfg_good_scan d
+
+/-! ### concrete witnesses (non-vacuity, and lead L13 end to end) -/
+
+def fsW : FS := { isFile := fun p => p == [47, 102], pathExists := fun p => p == [47, 102] }
+
+/-- one descriptor `3 -> /f`, fdinfo `pos:\t0\nflags:\t0100003\n` (O_LARGEFILE | access mode 3) -/
+def procW : Proc :=
+  { fdDir := .ok [⟨[51], .ok [47, 102],
+      .ok [112, 111, 115, 58, 9, 48, 10, 102, 108, 97, 103, 115, 58, 9, 48, 49, 48, 48, 48, 48, 51, 10]⟩]
+    alive := true }
+
+/-- lead L13 at the level of the whole call: the pre-fix configuration fails with KeyError
+    for a live process … -/
+theorem C14_accmode3_KeyError_upstream : openFiles cfgUpstream fsW procW = .exc .keyError := by decide
+
+/-- … the current one lists the file as `r+` -/
+theorem C14_accmode3_listed : openFiles cfg fsW procW = .ok [⟨[47, 102], 3, 0, mRp, 0o100003⟩] := by decide
+
+/-- the hypotheses of the table theorems are satisfiable by a non-trivial table: a regular
+    file, a deleted one, a socket, a device, a closing descriptor -/
+example : ∃ w : World, Live w ∧ (∀ d ∈ w.fds, WFFd w.fs d) ∧ w.fds.length = 5 ∧
+    (w.fds.filterMap (listed w.fs)).length = 1 :=
+  ⟨⟨[⟨3, .regular [47, 102] false, 7, 0o102001, [], none⟩,
+     ⟨4, .regular [47, 103] true, 0, 2, [], none⟩,
+     ⟨5, .socket 99, 0, 2, [], none⟩,
+     ⟨6, .device [47, 100], 0, 2, [], none⟩,
+     ⟨7, .regular [47, 102] false, 1, 1, [], some (.beforeFdinfo .esrch)⟩], fsW, false, none⟩,
+   ⟨rfl, rfl⟩, by decide, rfl, by decide⟩
+
+/-! ## io_counters -/
+
+theorem cfg_good_io : cfg.GoodIo := by
+  constructor <;> decide
+
+theorem cfg_io_guarded : cfg.ioIntGuarded = true := by decide
+
+/-- the six values come back under the documented names:
+    read_count ← syscr, write_count ← syscw, read_bytes, write_bytes, read_chars ← rchar,
+    write_chars ← wchar -/
+theorem C14_io_field_names :
+    cfg.pioFields.zip cfg.ioKeys = Spec.documentedFields.zip Spec.documentedKeys := by
+  rw [cfg_good_io.pioFields, cfg_good_io.ioKeys]
+
+/-- **io_counters is exact on every well-formed file**: any number of `name: value` lines in
+    any order with any values, interleaved with blank lines, junk lines without `": "` and
+    `name: text` lines whose text is not a number; the result is the six documented counters,
+    RuntimeError for a file without any counter line, ValueError when one of the six is
+    missing. -/
+theorem C14_io_exact (its : List Item) (h : ∀ it ∈ its, WFItem it) (hd : DistinctKeys its) :
+    ioCounters cfg true (.ok (renderItems its)) = expectedIo its :=
+  ioCounters_items cfg cfg_good_io cfg_io_guarded its h hd
+
+/-- **round trip** of the kernel's own rendering, for all counter values -/
+theorem C14_io_roundtrip (a : IoAcct) :
+    ioCounters cfg true (.ok (renderIo a)) = .ok (expectedIoAcct a) := by
+  unfold renderIo
+  rw [C14_io_exact (acctItems a)]
+  · rfl
+  · intro it hi
+    simp only [acctItems, List.mem_cons, List.not_mem_nil, or_false] at hi
+    rcases hi with e | e | e | e | e | e | e <;> subst e <;>
+      exact ⟨by decide, by decide, by unfold NoWs; decide⟩
+  · unfold DistinctKeys acctItems
+    simp only [kvs, List.map_cons, List.map_nil]
+    decide
+
+/-- **blank and malformed lines are tolerated**: the answer is the one for the file with all
+    those lines removed. -/
+theorem C14_io_tolerates_blank_and_malformed (its : List Item) (h : ∀ it ∈ its, WFItem it)
+    (hd : DistinctKeys its) :
+    ioCounters cfg true (.ok (renderItems its))
+      = ioCounters cfg true (.ok (renderItems (its.filter Item.isKv))) := by
+  have hf : kvs (its.filter Item.isKv) = kvs its := kvs_filter its
+  rw [C14_io_exact its h hd, C14_io_exact _ (fun it hi => h it (List.mem_filter.mp hi).1)
+    (by unfold DistinctKeys; rw [hf]; exact hd)]
+  unfold expectedIo
+  rw [hf]
+
+/-- an entirely empty file (or one holding only blank / junk lines) is reported as RuntimeError -/
+theorem C14_io_empty_file (its : List Item) (h : ∀ it ∈ its, WFItem it) (hk : kvs its = []) :
+    ioCounters cfg true (.ok (renderItems its)) = .exc .runtimeError := by
+  rw [C14_io_exact its h (by unfold DistinctKeys; rw [hk]; exact List.nodup_nil)]
+  simp [expectedIo, hk]
+
+/-- the file `rchar: 1 … write_bytes: 6` followed by the line `foo: bar` -/
+def ioBadValue : Bytes :=
+  [114, 99, 104, 97, 114, 58, 32, 49, 10, 119, 99, 104, 97, 114, 58, 32, 50, 10, 115, 121, 115, 99, 114, 58, 32,
+   51, 10, 115, 121, 115, 99, 119, 58, 32, 52, 10, 114, 101, 97, 100, 95, 98, 121, 116, 101, 115, 58, 32, 53, 10,
+   119, 114, 105, 116, 101, 95, 98, 121, 116, 101, 115, 58, 32, 54, 10, 102, 111, 111, 58, 32, 98, 97, 114, 10]
+
+/-- with `int(value)` outside the try (pre-fix), one non-numeric extra line fails the call … -/
+theorem C14_io_bad_value_fails_upstream :
+    ioCounters cfgUpstream true (.ok ioBadValue) = .exc .valueError := by decide
+
+/-- … with the current code it is skipped -/
+theorem C14_io_bad_value_tolerated : ioCounters cfg true (.ok ioBadValue) = .ok [3, 4, 5, 6, 1, 2] := by
+  decide
+
+/-- a missing `/proc/<pid>/io` of a process that is gone is NoSuchProcess -/
+theorem C14_io_gone (e : GoneErr) : ioCounters cfg false (.err e) = .exc .noSuchProcess := by
+  cases e <;> rfl
+
 end Psutil.C14
